@@ -401,7 +401,9 @@ def run_stage(driver, seed, tier, count=None):
                                       'rust': src, 'item': I.gitem_sexp(it)})
             else:
                 stats['schema_scope_confirmed_bad'] += 1
-                failures.append({'class': 'schema-inner-struct-param-scope', 'key': it['name'],
+                # the known finding F14 is E0401 (a generic parameter of the outer item used in an inner item); any other
+                # refusal of such an item is something else
+                failures.append({'class': 'schema-inner-struct-param-scope' if str(errs[0][0]) == 'E0401' else 'generic-item-does-not-compile', 'key': it['name'],
                                  'what': 'derive(BorshSchema) on %s does not compile (%s: %s): the inner struct %s%s is emitted with the generics <%s> '
                                          'although its fields name another type parameter of the enum'
                                          % (it['name'], errs[0][0], errs[0][1][:80], it['name'], bad[0]['variant'], ', '.join(bad[0]['generics'])),
@@ -418,7 +420,7 @@ def run_stage(driver, seed, tier, count=None):
             stats['evaluations'] += 1
             stats['candidate:enum-variant-without-the-lifetime:BorshSchema-' + ('compiles' if errs is None else 'refused-' + str(errs[0][0]))] += 1
             if errs is not None:       # finding F19: the serialization derives accept the item, the schema derive does not
-                failures.append({'class': 'schema-inner-struct-unused-lifetime', 'key': it['name'],
+                failures.append({'class': 'schema-inner-struct-unused-lifetime' if str(errs[0][0]) == 'E0392' else 'generic-item-does-not-compile', 'key': it['name'],
                                  'what': 'derive(BorshSchema) on %s does not compile (%s: %s): the inner struct of a variant that does not mention the '
                                          'enum\'s lifetime parameter still declares it; BorshSerialize / BorshDeserialize accept the definition'
                                          % (it['name'], errs[0][0], errs[0][1][:80]),
